@@ -3,9 +3,13 @@ package main
 import (
 	"bytes"
 	"encoding/binary"
+	"encoding/json"
 	"fmt"
+	"os"
+	"os/exec"
 	"reflect"
 	"strings"
+	"sync"
 
 	seccomp "github.com/elastic/go-seccomp-bpf"
 	"github.com/elastic/go-seccomp-bpf/arch"
@@ -141,6 +145,7 @@ type c13WorkerOut struct {
 	MaxPoints int              `json:"max_points"`
 	Outcomes  map[string]int64 `json:"outcomes"`
 	Capped    bool             `json:"capped"`
+	Stuck     bool             `json:"stuck"`
 	Viol      []c13Viol        `json:"violations"`
 	Replayed  bool             `json:"replay_deterministic"`
 }
@@ -158,16 +163,69 @@ type c13Call struct {
 
 type c13Setup func() (bodies []func(), check func() string)
 
-// mkScenario: calls[i] runs on logical thread i; policies are the inputs to snapshot.
-func mkScenario(build func() (calls []c13Call, inputs []*seccomp.Policy)) c13Setup {
-	// solo results are computed once, outside any schedule
-	soloCalls, _ := build()
-	solo := make([]string, len(soloCalls))
-	for i, c := range soloCalls {
-		solo[i] = c.fn()
+// c13Builders maps a scenario name to the function that builds its calls and inputs (fresh state each time).
+var c13Builders = map[string]func() ([]c13Call, []*seccomp.Policy){}
+
+// c13Solo returns what call idx of a scenario returns when it is the only library call ever made in a fresh process.
+// (Computing the "solo" result in the exploring process itself would let a defect that keeps state between calls - a
+// cache, a pooled buffer - poison the expectation as well.)
+var c13SoloCache = map[string]string{}
+var c13SoloMu sync.Mutex
+
+func c13Solo(scen string, idx int) string {
+	key := fmt.Sprintf("%s/%d", scen, idx)
+	c13SoloMu.Lock()
+	defer c13SoloMu.Unlock()
+	if v, ok := c13SoloCache[key]; ok {
+		return v
 	}
+	if f := os.Getenv("VERIF_C13_SOLO"); f != "" && len(c13SoloCache) == 0 {
+		// solo results computed once by the parent check (each in its own fresh process)
+		if b, err := os.ReadFile(f); err == nil {
+			json.Unmarshal(b, &c13SoloCache)
+			if v, ok := c13SoloCache[key]; ok {
+				return v
+			}
+		}
+	}
+	self, _ := os.Executable()
+	cmd := exec.Command(self, "child", "c13solo", scen, fmt.Sprint(idx))
+	cmd.Env = append(os.Environ(), "GOMAXPROCS=2")
+	out, err := cmd.Output()
+	v := string(out)
+	if err != nil {
+		v = "SOLO-CHILD-FAILED: " + err.Error()
+	}
+	c13SoloCache[key] = v
+	return v
+}
+
+func init() {
+	childCmds["c13solo"] = func(args []string) {
+		c13Scenarios()
+		b := c13Builders[args[0]]
+		if b == nil {
+			os.Exit(2)
+		}
+		calls, _ := b()
+		var i int
+		fmt.Sscan(args[1], &i)
+		os.Stdout.WriteString(calls[i].fn())
+	}
+}
+
+// mkScenario: calls[i] runs on logical thread i; policies are the inputs to snapshot.
+func mkScenario(name string, build func() (calls []c13Call, inputs []*seccomp.Policy)) c13Setup {
+	c13Builders[name] = build
+	var solo []string
 	return func() ([]func(), func() string) {
 		calls, inputs := build()
+		if solo == nil {
+			solo = make([]string, len(calls))
+			for i := range calls {
+				solo[i] = c13Solo(name, i)
+			}
+		}
 		snaps := make([]string, len(inputs))
 		for i, p := range inputs {
 			snaps[i] = c13Snapshot(p)
@@ -181,7 +239,7 @@ func mkScenario(build func() (calls []c13Call, inputs []*seccomp.Policy)) c13Set
 		check := func() string {
 			for i := range calls {
 				if results[i] != solo[i] {
-					return fmt.Sprintf("call %d (%s) returned a different result than when run alone: %s vs solo %s", i, calls[i].name, clip(results[i], 160), clip(solo[i], 160))
+					return fmt.Sprintf("call %d (%s) returned a different result than when it is the only call of a fresh process: %s vs solo %s", i, calls[i].name, clip(results[i], 160), clip(solo[i], 160))
 				}
 			}
 			for i, p := range inputs {
@@ -195,7 +253,12 @@ func mkScenario(build func() (calls []c13Call, inputs []*seccomp.Policy)) c13Set
 	}
 }
 
+var c13ScenCache map[string]c13Setup
+
 func c13Scenarios() map[string]c13Setup {
+	if c13ScenCache != nil {
+		return c13ScenCache
+	}
 	x, arm, i386 := refsem.ArchByName("x86_64"), refsem.ArchByName("arm"), refsem.ArchByName("i386")
 	share := func() (*seccomp.Policy, *seccomp.Policy) {
 		p := c13Policy(x, 1)
@@ -203,16 +266,16 @@ func c13Scenarios() map[string]c13Setup {
 		return p, &q
 	}
 	m := map[string]c13Setup{}
-	m["shared-copies"] = mkScenario(func() ([]c13Call, []*seccomp.Policy) {
+	m["shared-copies"] = mkScenario("shared-copies", func() ([]c13Call, []*seccomp.Policy) {
 		p, q := share()
 		return []c13Call{{"Assemble(p)", func() string { return c13Compile(p) }}, {"Assemble(copy of p)", func() string { return c13Compile(q) }}}, []*seccomp.Policy{p, q}
 	})
-	m["shared-copies-small"] = mkScenario(func() ([]c13Call, []*seccomp.Policy) {
+	m["shared-copies-small"] = mkScenario("shared-copies-small", func() ([]c13Call, []*seccomp.Policy) {
 		p := c13Policy(x, 2)
 		q := *p
 		return []c13Call{{"Assemble(p)", func() string { return c13Compile(p) }}, {"Assemble(copy of p)", func() string { return c13Compile(&q) }}}, []*seccomp.Policy{p, &q}
 	})
-	m["shared-copies-tiny"] = mkScenario(func() ([]c13Call, []*seccomp.Policy) {
+	m["shared-copies-tiny"] = mkScenario("shared-copies-tiny", func() ([]c13Call, []*seccomp.Policy) {
 		// one group with one name, shared by two policy values: small enough for preemption bound 3
 		names := make([]string, 1, 3)
 		names[0] = s1Names(x)[1]
@@ -226,7 +289,7 @@ func c13Scenarios() map[string]c13Setup {
 		q := *p
 		return []c13Call{{"Assemble(p)", func() string { return c13Compile(p) }}, {"Assemble(copy of p)", func() string { return c13Compile(&q) }}}, []*seccomp.Policy{p, &q}
 	})
-	m["shared-slices-two-archs"] = mkScenario(func() ([]c13Call, []*seccomp.Policy) {
+	m["shared-slices-two-archs"] = mkScenario("shared-slices-two-archs", func() ([]c13Call, []*seccomp.Policy) {
 		// one Syscalls slice, two policy values with different target architectures
 		p := &seccomp.Policy{DefaultAction: seccomp.ActionKillProcess, Syscalls: []seccomp.SyscallGroup{
 			{Action: seccomp.ActionAllow, Names: []string{"read", "execve"}},
@@ -237,32 +300,42 @@ func c13Scenarios() map[string]c13Setup {
 		seccomp.VerifSetArch(&q, i386.Info)
 		return []c13Call{{"Assemble(p for x86_64)", func() string { return c13Compile(p) }}, {"Assemble(copy of p for i386)", func() string { return c13Compile(&q) }}}, []*seccomp.Policy{p, &q}
 	})
-	m["two-archs"] = mkScenario(func() ([]c13Call, []*seccomp.Policy) {
+	m["two-archs"] = mkScenario("two-archs", func() ([]c13Call, []*seccomp.Policy) {
 		p, q := c13Policy(arm, 0), c13Policy(i386, 1)
 		return []c13Call{{"Assemble(arm)", func() string { return c13Compile(p) }}, {"Assemble(i386)", func() string { return c13Compile(q) }}}, []*seccomp.Policy{p, q}
 	})
-	m["assemble-dump"] = mkScenario(func() ([]c13Call, []*seccomp.Policy) {
+	m["assemble-dump"] = mkScenario("assemble-dump", func() ([]c13Call, []*seccomp.Policy) {
 		p, q := share()
 		return []c13Call{{"Assemble(p)", func() string { return c13Compile(p) }}, {"Dump(copy of p)", func() string { return c13Dump(q) }}}, []*seccomp.Policy{p, q}
 	})
-	m["assemble-getinfo"] = mkScenario(func() ([]c13Call, []*seccomp.Policy) {
+	m["assemble-getinfo"] = mkScenario("assemble-getinfo", func() ([]c13Call, []*seccomp.Policy) {
 		p := c13Policy(x, 0)
 		seccomp.VerifSetArch(p, nil) // let Assemble look the architecture up itself
 		return []c13Call{{"Assemble(p, default arch)", func() string { return c13Compile(p) }}, {"GetInfo(*)", c13Lookups}}, []*seccomp.Policy{p}
 	})
-	m["assemble-texts"] = mkScenario(func() ([]c13Call, []*seccomp.Policy) {
+	m["assemble-texts"] = mkScenario("assemble-texts", func() ([]c13Call, []*seccomp.Policy) {
 		p := c13Policy(x, 1)
 		return []c13Call{{"Assemble(p)", func() string { return c13Compile(p) }}, {"text conversions", c13Texts}}, []*seccomp.Policy{p}
 	})
-	m["same-value-twice"] = mkScenario(func() ([]c13Call, []*seccomp.Policy) {
+	m["same-value-twice"] = mkScenario("same-value-twice", func() ([]c13Call, []*seccomp.Policy) {
 		p := c13Policy(x, 1)
 		return []c13Call{{"Assemble(p)", func() string { return c13Compile(p) }}, {"Assemble(p) again, same value", func() string { return c13Compile(p) }}}, []*seccomp.Policy{p}
 	})
-	m["three-threads"] = mkScenario(func() ([]c13Call, []*seccomp.Policy) {
+	m["three-threads"] = mkScenario("three-threads", func() ([]c13Call, []*seccomp.Policy) {
 		p, q := share()
 		r := c13Policy(arm, 0)
 		return []c13Call{{"Assemble(p)", func() string { return c13Compile(p) }}, {"Assemble(copy of p)", func() string { return c13Compile(q) }}, {"Assemble(arm)", func() string { return c13Compile(r) }}}, []*seccomp.Policy{p, q, r}
 	})
+	// sequential-history operations as one-call scenarios, so that their solo results also come from fresh processes
+	m["hist-P"] = mkScenario("hist-P", func() ([]c13Call, []*seccomp.Policy) {
+		p := c13Policy(x, 1)
+		return []c13Call{{"Assemble(P)", func() string { return c13Compile(p) }}, {"Dump(P)", func() string { return c13Dump(p) }}}, []*seccomp.Policy{p}
+	})
+	m["hist-Q"] = mkScenario("hist-Q", func() ([]c13Call, []*seccomp.Policy) {
+		q := c13Policy(arm, 0)
+		return []c13Call{{"Assemble(Q)", func() string { return c13Compile(q) }}, {"texts", c13Texts}}, []*seccomp.Policy{q}
+	})
+	c13ScenCache = m
 	return m
 }
 
